@@ -25,7 +25,7 @@ MANIFEST = {
             "check_solution pipeline) tied to the code by generated tables and differential correspondence (stack, alt stack, "
             "op count, code-separator position, errno). Theorems C03M_*: the conditional counters abstract Core's vfExec for every "
             "op sequence; IntStreamer = CScriptNum, bool_from_script_bytes = CastToBool; get_opcode = GetScriptOp + CheckMinimalPush for "
-            "every script and pc; for every opcode outside the CHECKSIG family and every state, eval_instruction = one iteration of "
+            "every script and pc; check_valid_signature = IsValidSignatureEncoding, hash-type and public-key encoding checks = Core's predicates;  for every opcode outside the CHECKSIG family and every state, eval_instruction = one iteration of "
             "Core's loop (handlers taken from the generated INSTRUCTION_LOOKUP); eval_script = EvalScript (verdict and final stack) "
             "for every script without CHECKSIG-family instructions, by induction on the loop.",
     "note": "Signature verification proper and the hash functions are parameters of the model (sig-oracle table computed "
